@@ -71,6 +71,10 @@ LEX_SITE = "xdsl.utils.mlir_lexer.MLIRLexer._lex_string_literal"
 
 # minimal failing inputs of the defects found on the pinned tree (kept so that they are re-found if they return)
 CORPUS: list[list] = [
+    # identifier-shaped names with non-ASCII letters/digits (must be quoted when printed)
+    ["dict", [["636166c3a9", ["unit"]], ["78c2b2", ["unit"]], ["61e5908de5898d", ["unit"]]]],
+    ["symref", ["726f6f74", "78c2b2"]],
+    ["symref", ["636166c3a9"]],
     ["str", "c3a9"],
     ["dict", [["c3a9", ["unit"]]]],
     ["dense", "tensor", [2], ["f", "f32"], [V.d2h(float("nan")), V.d2h(1.0)]],
